@@ -98,6 +98,33 @@ func c02Gen(r *rand.Rand, tier string) []spec.Case {
 			c.P = spec.MustJSON(cc)
 		}
 	}
+	// the host's ProtocolVersion names a version that has its own VersionedPlugins entry, while the legacy
+	// Plugins field holds the set of another version: the versioned entry is in force
+	overlap := func(n int) {
+		for i := 0; i < n; i++ {
+			hm := 1 + r.Intn(31)
+			for len(subsetOf(hm)) < 2 {
+				hm = 1 + r.Intn(31)
+			}
+			h := subsetOf(hm)
+			vi := r.Intn(len(h))
+			wi := (vi + 1 + r.Intn(len(h)-1)) % len(h)
+			v, w := h[vi], h[wi]
+			pset := []int{v}
+			switch i % 3 {
+			case 1:
+				pset = append([]int(nil), h...)
+			case 2:
+				pset = subsetOf((1 + r.Intn(31)) | 1<<uint(v))
+			}
+			add("overlap", h, pset, "versioned", pick(r, []string{"versioned", "legacy", "both"}), "")
+			c := &out[len(out)-1]
+			var cc spec.C02Case
+			jsonUnmarshal(c.P, &cc)
+			cc.Host.Overlap, cc.Host.OverlapSetOf = &v, &w
+			c.P = spec.MustJSON(cc)
+		}
+	}
 	layouts := []string{"versioned", "legacy", "both"}
 	envFor := func(h []int) string {
 		var ss []string
@@ -127,6 +154,7 @@ func c02Gen(r *rand.Rand, tier string) []spec.Case {
 			}
 		}
 		relaunch(600)
+		overlap(300)
 		return out
 	}
 	// quick: diagonals, then seeded pairs biased to |H ∩ P| >= 2
@@ -156,6 +184,7 @@ func c02Gen(r *rand.Rand, tier string) []spec.Case {
 		add("pair", subsetOf(hm), subsetOf(pm), pick(r, layouts), pick(r, layouts), env)
 	}
 	relaunch(50)
+	overlap(18)
 	return out
 }
 
@@ -245,6 +274,10 @@ func c02Judge(c spec.Case, evs []spec.Event, d *Death) CaseResult {
 				viol("plugin-not-terminated", fmt.Sprintf("after the incompatible-version failure the plugin process is in state %s", o.StateSoon))
 			}
 		}
+	}
+	if p.Host.Overlap != nil {
+		res.Class += fmt.Sprintf(" overlap(best=legacy:%v)", best == *p.Host.Overlap)
+		res.Counters["overlap_cases"]++
 	}
 	// a second launch through the same ClientConfig object: same rules, against the host's ORIGINAL sets
 	if p.Plugin2 != nil {
